@@ -343,6 +343,66 @@ func (g *gen) pairCase() Case {
 	return c
 }
 
+// heldPairCase: two STREAM calls on "*" on one server, a restricted user (u1:
+// t1 allowed, t2 denied) and an administrator, both stepped through the gates
+// of their streams so that both coalesce (duplicate counts > 0) and one of
+// them is parked inside Send - after its ACL check - while the other builds
+// and sends responses for a target the first is denied.  GOMAXPROCS(1).
+func (g *gen) heldPairCase() Case {
+	r := g.r
+	g.ow = [3]int{10, 0, 0}
+	targets := []string{"t1", "t2", "t3"}
+	c := Case{Targets: targets, HasACL: true, ACL: mixedTable(g), User: strp("u1"), User2: strp("adm"), OneP: true}
+	if r.Chance(1, 4) {
+		c.User, c.User2 = c.User2, c.User // the administrator subscribes first
+	}
+	for i := r.Intn(3); i > 0; i-- {
+		c.Ops = append(c.Ops, g.cacheStep(targets, false, false))
+	}
+	star := func() *Req {
+		return &Req{HasSub: true, Prefix: &GPath{Target: "*"}, Mode: 0, UpdatesOnly: r.Chance(1, 2), Subs: []*GPath{{}}}
+	}
+	c.Req, c.Req2 = star(), star()
+	c.Ops = append(c.Ops, Step{K: "sub"}, Step{K: "sub2"})
+	restricted, admin := "a", "b"
+	if *c.User == "adm" {
+		restricted, admin = "b", "a"
+	}
+	p1, p2 := g.leafPath(), g.leafPath()
+	upd := func(t string, p []Elem) Step {
+		g.ts++
+		return Step{K: "update", Burst: 1, N: &Noti{TS: g.ts, Prefix: GPath{Target: t}, Upds: []Upd{{Path: GPath{Elems: p}, Val: 100 + g.ts}}}}
+	}
+	span := []Step{{K: "gate", Target: "a", Gate: 0}, {K: "gate", Target: "b", Gate: 0}}
+	n1, n2 := 3+r.Intn(2), 3+r.Intn(2)
+	first, second := "t1", "t2"
+	if r.Chance(1, 3) {
+		first, second = "t2", "t1"
+	}
+	for i := 0; i < n1; i++ {
+		span = append(span, upd(first, map[string][]Elem{"t1": p1, "t2": p2}[first]))
+	}
+	for i := 0; i < n2; i++ {
+		span = append(span, upd(second, map[string][]Elem{"t1": p1, "t2": p2}[second]))
+	}
+	// step the restricted caller into the Send of a coalesced response, let the
+	// administrator run ahead through its own coalesced responses, then release
+	span = append(span, Step{K: "gate", Target: restricted, Gate: 1 + r.Intn(2)},
+		Step{K: "gate", Target: admin, Gate: 1 + r.Intn(4)},
+		Step{K: "gate", Target: restricted, Gate: -1},
+		Step{K: "gate", Target: admin, Gate: -1})
+	for i := range span {
+		span[i].Burst = 1
+	}
+	span[0].Seq = true
+	span[len(span)-1].Burst = 2
+	c.Ops = append(c.Ops, span...)
+	for i := r.Intn(3); i > 0; i-- {
+		c.Ops = append(c.Ops, g.cacheStep(targets, false, true))
+	}
+	return c
+}
+
 func nontrivial(c *Case) bool {
 	// the ACL made a difference: the un-ACL'd run delivered updates and the run
 	// with the ACL delivered strictly fewer (filtered, or the RPC was rejected)
@@ -369,7 +429,7 @@ func nontrivial(c *Case) bool {
 func main() {
 	o := vh.ParseFlags()
 	quietLogs()
-	meta := vh.NewMeta("corpus cases; table: a fixed three-target script (snapshot, then update, subtree delete and whole-target removal per target) under all 8 allow/deny row sets x modes {STREAM,ONCE,POLL} x updates_only x target {*,t1,t2}; random: ACL table over 2 users x 3 targets (allow / deny / missing row), user u1/u2/unknown/absent, ACL installed or not, 2-9 initial notifications, one request (STREAM 58% / ONCE / POLL / unknown mode; target * or single, 1-3 subscription paths), STREAM: 2-10 (thorough 2-17) streamed cache operations (single/multi update, atomic, subtree delete, target removal) across allowed and denied targets, 1/5 of them bursts of 2-7 concurrent writes (one writer goroutine per target, no quiescence in between), in 1/8 of the cases the initial walk itself is overlapped by such a burst; POLL: 0-3 triggers with edits; idle-after-denied: 12 (thorough 100) STREAM scripts on * by a caller denied a target, server WithTimeout(100ms): a denied update/delete, 320 ms of quiet, then an authorised update; two-callers: 160 (thorough 3000) scripts with two overlapping Subscribe calls on one server from the same peer address (first: a STREAM on * by adm/u1/u2; second, while it is open: ONCE/STREAM/POLL by u1/u2/unknown user/no user), each call judged on its own. Every case is run with the ACL and without. in every generated family (not corpus): with small probability a target and/or the deprecated element list on subscription paths, ignored request fields (Subscription.mode/sample_interval/heartbeat/suppress_redundant, qos, allow_aggregation, use_models, encoding, extension) and another construction of the server (options permuted, nil options interleaved, WithStats/WithFlowControlTest/stats hooks/explicit default timeout added). distinct = distinct inputs; non-trivial = ACL installed, the un-ACL'd run delivered at least one update and the run with the ACL strictly fewer (filtered or rejected)")
+	meta := vh.NewMeta("corpus cases; table: a fixed three-target script (snapshot, then update, subtree delete and whole-target removal per target) under all 8 allow/deny row sets x modes {STREAM,ONCE,POLL} x updates_only x target {*,t1,t2}; random: ACL table over 2 users x 3 targets (allow / deny / missing row), user u1/u2/unknown/absent, ACL installed or not, 2-9 initial notifications, one request (STREAM 58% / ONCE / POLL / unknown mode; target * or single, 1-3 subscription paths), STREAM: 2-10 (thorough 2-17) streamed cache operations (single/multi update, atomic, subtree delete, target removal) across allowed and denied targets, 1/5 of them bursts of 2-7 concurrent writes (one writer goroutine per target, no quiescence in between), in 1/8 of the cases the initial walk itself is overlapped by such a burst; POLL: 0-3 triggers with edits; idle-after-denied: 12 (thorough 100) STREAM scripts on * by a caller denied a target, server WithTimeout(100ms): a denied update/delete, 320 ms of quiet, then an authorised update; two-callers: 160 (thorough 3000) scripts with two overlapping Subscribe calls on one server from the same peer address (first: a STREAM on * by adm/u1/u2; second, while it is open: ONCE/STREAM/POLL by u1/u2/unknown user/no user), each call judged on its own; two-callers-held: 60 (thorough 800) scripts with a restricted user and an administrator both streaming *, stepped through the gates of their streams (GOMAXPROCS(1)) so that both coalesce and one is parked inside Send while the other sends responses for the target the first is denied. Every case is run with the ACL and without. in every generated family (not corpus): with small probability a target and/or the deprecated element list on subscription paths, ignored request fields (Subscription.mode/sample_interval/heartbeat/suppress_redundant, qos, allow_aggregation, use_models, encoding, extension) and another construction of the server (options permuted, nil options interleaved, WithStats/WithFlowControlTest/stats hooks/explicit default timeout added). distinct = distinct inputs; non-trivial = ACL installed, the un-ACL'd run delivered at least one update and the run with the ACL strictly fewer (filtered or rejected)")
 	e := &emitter{dir: o.Out, cf: newCaseFile(), meta: meta, limit: 175, require: "Subscribe.C07Check", twice: true, nontriv: nontrivial}
 
 	if o.Replay == "" {
@@ -430,6 +490,13 @@ func main() {
 	}
 	for i := 0; i < npair; i++ {
 		e.add("two-callers", newGen(r.Fork()).pairCase())
+	}
+	nheld := 60
+	if o.Thorough() {
+		nheld = 800
+	}
+	for i := 0; i < nheld; i++ {
+		e.add("two-callers-held", newGen(r.Fork()).heldPairCase())
 	}
 	e.flush()
 	if meta.Samples == nil {
